@@ -143,6 +143,18 @@ Fixpoint scan_str (t : text) (p : nat) (fuel : nat) : list elem :=
           if Nat.ltb rs (tlen t) then e :: scan_str t (S rs) fuel else [e]
       end
   end.
+(* text iterator read with a byte reader (keyword: rd_key sep, vector: rd_vec): the elements from offset p
+   on, one terminator byte skipped between elements; [mk] wraps the bytes of an element *)
+Fixpoint scan_rd (rd : text -> nat -> rres) (mk : list N -> elem) (t : text) (p : nat) (fuel : nat) : list elem :=
+  match fuel with
+  | O => []
+  | S fuel =>
+      if (byte_at t p =? 0)%N then [EErr MissingData] else
+      match rd t p with
+      | RFail c _ => [EErr c]
+      | ROk rs b => if Nat.ltb rs (tlen t) then mk b :: scan_rd rd mk t (S rs) fuel else [mk b]
+      end
+  end.
 (* buffer: segments of a 'c' array *)
 Fixpoint segments (d : list N) (cur : list N) : list elem :=
   match d with
@@ -180,10 +192,20 @@ Definition abs (s : src) : sstate :=
       CList full rest false
   end.
 
+(* the cursor of a text iterator whose elements are read as keywords / vectors *)
+Definition abs_rd (rdm : list N -> text -> nat -> rres) (mk : list N -> elem) (m : stri) : sstate :=
+  let fuel := S (S (tlen (s_text m))) in
+  CStr (scan_rd (rdm (s_sep m)) mk (s_text m) (s_base m) fuel)
+       (match s_val m with Some p => scan_rd (rdm (s_sep m)) mk (s_text m) p fuel | None => [] end)
+       (match s_restore m with Some _ => true | None => false end).
+Definition abs_key (m : stri) : sstate := abs_rd rd_key ES m.
+Definition abs_vec (m : stri) : sstate := abs_rd (fun _ => rd_vec) EVec m.
+
 (* ---- histories on the specification *)
 Inductive sout :=
 | SoV (e : option elem) (idx : option N) | SoA (a : aclass) | SoR | SoK (ok : bool)
-| SoQ (ok : bool) (e : option elem) (idx : option N) | SoW (l : list elem) (e : wend) | SoOpen | SoNone.
+| SoQ (ok : bool) (e : option elem) (idx : option N) | SoW (l : list elem) (e : wend)
+| SoZ (a : aclass) (hasval : bool) | SoOpen | SoNone.
 
 Definition s_consume (c : sstate) : bool * option elem * sstate :=
   match s_value c with
@@ -217,6 +239,27 @@ Fixpoint s_walk (fuel : nat) (c : sstate) (acc : list elem) : list elem * wend *
       end
   end.
 
+(* the loop reading keywords / vectors: every element that can be read is collected *)
+Fixpoint s_walk_b (fuel : nat) (c : sstate) (acc : list elem) : list elem * wend * sstate :=
+  match fuel with
+  | O => (rev acc, WLimit, c)
+  | S fuel =>
+      match s_value c with
+      | None => (rev acc, WNoValue, c)
+      | Some (EErr e) => (rev acc, WConvErr e, s_read c)
+      | Some x =>
+          let (a, c') := s_advance (s_read c) in
+          match a with
+          | ARefused => (rev (x :: acc), WAdvErr 0, c')
+          | AMore => s_walk_b fuel c' (x :: acc)
+          | _ => (rev (x :: acc), WDone, c')
+          end
+      end
+  end.
+
+(* A history on a text iterator is specified for ONE way of reading its elements (numbers, keywords or
+   vectors: the cursor is built by abs / abs_key / abs_vec accordingly and OValue / OKey / OVec are then the
+   same step).  Histories that mix readers, and OUint, are not specified at this level. *)
 Definition sstep (st : option sstate * option sstate) (o : op * bool)
   : (option sstate * option sstate) * sout :=
   let '(o, upper) := o in
@@ -236,6 +279,19 @@ Definition sstep (st : option sstate * option sstate) (o : op * bool)
                    | CStr full (x :: r) _ => (put (CStr full (x :: r) false), SoOpen)
                    | _ => (st, SoNone)
                    end
+      | OKey | OKeyN | OVec | OVecN =>
+          match c with
+          | CStr _ _ _ => (put (s_read c), SoV (s_value c) None)
+          | _ => (st, SoNone)
+          end
+      | OWalkK | OWalkV =>
+          match c with
+          | CStr _ _ _ => let '(l, e, c') := s_walk_b WALK_MAX c [] in (put c', SoW l e)
+          | _ => (st, SoNone)
+          end
+      | OSkip => let (a, c') := s_advance c in
+                 (put c', SoZ a (match s_value c with Some _ => true | None => false end))
+      | OUint | OMeta => (st, SoOpen)
       end
   end.
 Fixpoint srun (st : option sstate * option sstate) (ops : list (op * bool)) : list sout :=
